@@ -51,7 +51,8 @@ def cfg(compiler, opt, std='c++17', abacus=False, **kw):
     return Config(compiler, opt, std, abacus, **kw)
 
 
-QUICK_CFGS = [cfg('g++', '-O0'), cfg('g++', '-O2'), cfg('clang++', '-O2')]
+# clang-O2 mirrors a CMake Release build (-DNDEBUG): code hidden in assert() is a configuration dimension too
+QUICK_CFGS = [cfg('g++', '-O0'), cfg('g++', '-O2'), cfg('clang++', '-O2', extra=['-DNDEBUG'], tag='clang-O2-c++17-ndebug')]
 ABACUS_QUICK = [cfg('g++', '-O2', abacus=True)]
 
 
@@ -60,7 +61,10 @@ def thorough_cfgs():
     for cc in ('g++', 'clang++'):
         for o in ('-O0', '-O1', '-O2', '-O3'):
             for std in ('c++17', 'c++20'):
-                out.append(cfg(cc, o, std))
+                if o == '-O3':
+                    out.append(cfg(cc, o, std, extra=['-DNDEBUG'], tag=f"{'gcc' if cc == 'g++' else 'clang'}-O3-{std}-ndebug"))
+                else:
+                    out.append(cfg(cc, o, std))
         out.append(cfg(cc, '-O2', 'c++2b'))
         out.append(cfg(cc, '-Os'))
     return out
@@ -266,6 +270,18 @@ def finish(prop, tier, seed, t0, arms, violations, extra_cov, status_notes, inco
     n_known = 0
     lines = []
     vio_summary = []
+    merged = {}
+    for v in violations:   # the same class may be observed by several arms (value monitor, sanitizer, fuzz)
+        m = merged.get(v['key'])
+        if m is None:
+            merged[v['key']] = dict(v, arm=v.get('arm', 'monitor'))
+        else:
+            m['count'] = m.get('count', 1) + v.get('count', 1)
+            m['arm'] = m['arm'] + '+' + v.get('arm', 'monitor') if v.get('arm', 'monitor') not in m['arm'] else m['arm']
+            m['witnesses'] = (m.get('witnesses') or []) + (v.get('witnesses') or [])
+            for k, n in (v.get('per_cfg') or {}).items():
+                m.setdefault('per_cfg', {})[k] = m.get('per_cfg', {}).get(k, 0) + n
+    violations = list(merged.values())
     for i, v in enumerate(sorted(violations, key=lambda v: v['key'])):
         k = match_known(prop, v['key'], known)
         rp = os.path.join(repdir, f'{i:03d}.json')
